@@ -1179,6 +1179,9 @@ func (p *parser) parseAndCodeExpr(and *andCodeExpr) (any, bool) {
 	state := p.cloneState()
 	// {{ end }} ==template==
 
+	// a predicate or state block sees the current position and no text
+	p.cur.pos = p.pt.position
+	p.cur.text = nil
 	ok, err := and.run(p)
 	if err != nil {
 		p.addErr(err)
@@ -1416,6 +1419,9 @@ func (p *parser) parseNotCodeExpr(not *notCodeExpr) (any, bool) {
 	state := p.cloneState()
 
 	// {{ end }} ==template==
+	// a predicate or state block sees the current position and no text
+	p.cur.pos = p.pt.position
+	p.cur.text = nil
 	ok, err := not.run(p)
 	if err != nil {
 		p.addErr(err)
@@ -1545,6 +1551,9 @@ func (p *parser) parseStateCodeExpr(state *stateCodeExpr) (any, bool) {
 	}
 
 	// {{ end }} ==template==
+	// a predicate or state block sees the current position and no text
+	p.cur.pos = p.pt.position
+	p.cur.text = nil
 	err := state.run(p)
 	if err != nil {
 		p.addErr(err)
